@@ -2027,3 +2027,29 @@ def register_misc11(E):
 _old_register_all19=register_all
 def register_all(E):
     _old_register_all19(E); register_misc11(E)
+
+# ----------------------------------------------------------------------------- pem (concrete contents only)
+def m_pem_new(e,run,a,f): return Agg('Pem',[StringO(byte_list(a[0])),u8vec(byte_list(a[1]))])
+def m_pem_encode(e,run,a,f):
+    import base64
+    p=deref(a[0]); tag=need_conc(byte_list(p.f[0]),'pem tag').decode(); c=need_conc(byte_list(p.f[1]),'pem contents (symbolic key material cannot be base64-encoded by this model)')
+    b64=base64.b64encode(c).decode(); lines=[b64[i:i+64] for i in range(0,len(b64),64)]
+    out='-----BEGIN %s-----\r\n'%tag+''.join(l+'\r\n' for l in lines)+'-----END %s-----\r\n'%tag
+    return mk_string(out)
+def m_pem_parse(e,run,a,f):
+    import base64,re as _re
+    t=need_conc(byte_list(a[0]),'pem text').decode(errors='replace')
+    m=_re.search(r'-----BEGIN ([^-]+)-----\s*(.*?)\s*-----END \1-----',t,_re.S)
+    if not m: return err(Opaque('PemError'))
+    try: c=base64.b64decode(''.join(m.group(2).split()),validate=True)
+    except Exception: return err(Opaque('PemError'))
+    return ok(Agg('Pem',[mk_string(m.group(1)),u8vec(list(c))]))
+def m_pem_contents(e,run,a,f): return Ref(Cell(deref(a[0]).f[1]))
+def m_pem_tag(e,run,a,f): return Ref(Cell(Str(byte_list(deref(a[0]).f[0]))))
+def register_pem(E):
+    M=E.model
+    M(r'^(pem::)?Pem::new$',m_pem_new); M(r'^(pem::)?encode$',m_pem_encode); M(r'^pem::parse$|^parse$',m_pem_parse)
+    M(r'^(pem::)?Pem::contents$',m_pem_contents); M(r'^(pem::)?Pem::tag$',m_pem_tag)
+_old_register_all20=register_all
+def register_all(E):
+    _old_register_all20(E); register_pem(E)
